@@ -385,8 +385,10 @@ type out struct {
 
 var o = &out{skelTxt: map[string]string{}}
 
-func defE(name, term string)      { o.exprs = append(o.exprs, fmt.Sprintf("def %s : E := %s", name, term)) }
-func defBool(name string, b bool) { o.exprs = append(o.exprs, fmt.Sprintf("def %s : Bool := %v", name, b)) }
+func defE(name, term string) { o.exprs = append(o.exprs, fmt.Sprintf("def %s : E := %s", name, term)) }
+func defBool(name string, b bool) {
+	o.exprs = append(o.exprs, fmt.Sprintf("def %s : Bool := %v", name, b))
+}
 func defOptBool(name string, b *bool) {
 	v := "none"
 	if b != nil {
@@ -394,7 +396,9 @@ func defOptBool(name string, b *bool) {
 	}
 	o.exprs = append(o.exprs, fmt.Sprintf("def %s : Option Bool := %s", name, v))
 }
-func defStr(name, s string) { o.exprs = append(o.exprs, fmt.Sprintf("def %s : String := %s", name, leanStr(s))) }
+func defStr(name, s string) {
+	o.exprs = append(o.exprs, fmt.Sprintf("def %s : String := %s", name, leanStr(s)))
+}
 func defInt(name string, n int) {
 	o.exprs = append(o.exprs, fmt.Sprintf("def %s : Int := %d", name, n))
 }
